@@ -50,7 +50,17 @@ def build_aut(inp):
             A.delete_vertex(e[1])
         elif e[0] == "rec":
             A.recurrent(inplace=True)
+        elif e[0] == "ren":            # rename_generators in place
+            A.rename_generators(_full_map(A, e[1]), inplace=True)
+        elif e[0] == "ren_copy":       # ... or returning a renamed copy
+            A = A.rename_generators(_full_map(A, e[1]), inplace=False)
     return A
+
+
+def _full_map(A, m):
+    """rename_map must cover every label of the automaton: labels outside `m` map to themselves"""
+    labs = {lab for v in A.graph_dict for lab in A.graph_dict[v]}
+    return {lab: m.get(lab, lab) for lab in labs}
 
 
 def edited_graph(inp):
@@ -66,6 +76,9 @@ def edited_graph(inp):
             g[e[1]][e[3]] = e[2]
         elif e[0] == "del" and e[1] in g:
             _drop(g, e[1])
+        elif e[0] in ("ren", "ren_copy"):
+            for v in g:
+                g[v] = {e[1].get(lab, lab): w for lab, w in g[v].items()}
         elif e[0] == "rec":
             while True:
                 dead = [v for v in g if not g[v] or not any(v in es.values() for es in g.values())]
@@ -107,6 +120,20 @@ def rand_edits(rng, j):
                 continue
         if r < 0.3:
             edits.append(["rec"])
+            continue
+        if r < 0.42:
+            cur = sorted({l for (_, l) in used})
+            if cur:
+                if rng.random() < 0.5:
+                    perm = cur[:]
+                    rng.shuffle(perm)
+                    m = dict(zip(cur, perm))
+                else:
+                    m = {l: l.swapcase() for l in cur}
+                    if len(set(m.values()) | set(cur)) != 2 * len(cur) and set(m.values()) != set(cur):
+                        m = {l: l for l in cur}      # keep the relabelling injective
+                edits.append([rng.choice(["ren", "ren", "ren_copy"]), m])
+                used = {(t, m.get(l, l)) for (t, l) in used}
             continue
         if pairs and r < 0.65:
             t, h = rng.choice(pairs)            # a parallel edge
@@ -316,9 +343,9 @@ def gen_acc(rng, n):
                 j = random_automaton(rng)
         else:
             j = random_automaton(rng)
-        edits = rand_edits(rng, j) if rng.random() < 0.2 else []
+        edits = rand_edits(rng, j) if rng.random() < 0.35 else []
         spec = rep_spec_for(rng, {"graph": j["graph"] + [[0, [[e[3], 0]]] for e in edits if e[0] == "add"], "starts": j["starts"]},
-                            drop=rng.random() < 0.05)
+                            drop=rng.random() < 0.05)      # (renamings permute / case-swap labels: same letters)
         if edits:
             yield {"aut": j, "edits": edits, "spec": spec, "calls": rand_calls(rng, j)}
             continue
@@ -641,6 +668,124 @@ def judge_memo(inp, obs, lr):
     return None
 
 
+# =====================================================================================
+# oracle: histories on one representation object between enumerations (G1-G3)
+# =====================================================================================
+def gen_rhist(rng, n):
+    for i in range(n):
+        names = list(rng.choice(["a", "ab", "abc"]))
+        dim = rng.choice([1, 2, 2, 3])
+        A = H.no_int32(H.rand_spec(rng, ring=rng.choice(["Q", "Q", "C"]), simple=True, n=dim, names=names, reassign=False))
+        B = H.no_int32(H.rand_spec(rng, ring="Q", simple=True, n=dim, names=names, reassign=False))   # an unrelated object
+        j = random_automaton(rng, 4, 2)
+        extra = [c for c in "abcd" if c not in names]
+        steps = []
+        for _ in range(rng.randint(3, 7)):
+            who = rng.choice("AAB")
+            r = rng.random()
+            if r < 0.35:
+                steps.append(["free", who, rng.randint(0, 3 if len(names) < 3 else 2), rng.random() < 0.6, rng.random() < 0.8])
+            elif r < 0.55:
+                steps.append(["acc", who, rng.randint(0, 3), rng.random() < 0.5, rng.random() < 0.8,
+                              rng.choice(["start", "end"]), rng.randrange(nstates(j))])
+            elif r < 0.65:
+                steps.append(["elements", who, ["".join(H.rand_letters(rng, H.letters_of(names), k)) for k in (1, 2)]])
+            else:
+                g = rng.choice(names + extra[:1])      # a new generator or a re-assignment
+                sp = A if who == "A" else B
+                steps.append(["assign", who, g, {"g": g, "m": H.enc(H.gen_matrix(rng, dim, sp["ring"])), "inv": True}])
+        yield {"A": A, "B": B, "aut": j, "steps": steps}
+
+
+def _enum(rep, A, st):
+    """one enumeration call -> {"mats", "words"} (or an exception observation)"""
+    def call():
+        if st[0] == "free":
+            return rep.freely_reduced_elements(st[2], maxlen=st[3], with_words=st[4]), st[4]
+        if st[0] == "acc":
+            kw = {"start_state": st[6]} if st[5] == "start" else {"end_state": st[6]}
+            return rep.automaton_accepted(A, st[2], maxlen=st[3], with_words=st[4], **kw), st[4]
+        return rep.elements(st[2]), False
+    try:
+        r, ww = call()
+    except H.ImplTimeout:
+        raise
+    except Exception as e:
+        return {"exc": type(e).__name__}, None
+    if ww:
+        return {"mats": np.asarray(r[0], dtype=complex).tolist(), "words": list(r[1])}, r
+    return {"mats": np.asarray(r, dtype=complex).tolist(), "words": None}, r
+
+
+def _same(a, b):
+    if "exc" in a or "exc" in b:
+        return a.get("exc") == b.get("exc")
+    if (a["words"] is None) != (b["words"] is None):
+        return False
+    if a["words"] is None:
+        return match_mats_c(a["mats"], b["mats"])
+    if sorted(a["words"]) != sorted(b["words"]) or len(a["mats"]) != len(a["words"]):
+        return False
+    da, db = collections.defaultdict(list), collections.defaultdict(list)
+    for w, m in zip(a["words"], a["mats"]):
+        da[w].append(m)
+    for w, m in zip(b["words"], b["mats"]):
+        db[w].append(m)
+    return all(match_mats_c(da[w], db[w]) for w in da)
+
+
+def match_mats_c(x, y):
+    """match_mats for complex matrices (real and imaginary parts side by side)"""
+    def split(l):
+        a = np.asarray(l, dtype=complex)
+        a = a.reshape(len(l), -1) if len(l) else a.reshape(0, 0)
+        return np.concatenate([a.real, a.imag], axis=1).tolist()
+    return match_mats(split(x), split(y))
+
+
+@H.limited(20)
+def run_rhist(inp):
+    specs = {"A": dict(inp["A"], hist=list(inp["A"]["hist"])), "B": dict(inp["B"], hist=list(inp["B"]["hist"]))}
+    reps = {k: H.build_rep(v) for k, v in specs.items()}
+    aut = aut_from_json(inp["aut"])
+    for i, st in enumerate(inp["steps"]):
+        who = st[1]
+        rep, spec = reps[who], specs[who]
+        tag = "%d:%s" % (i, st[0])
+        if st[0] == "assign":
+            rep[st[3]["g"]] = H.tonp_h(st[3], spec["ring"])
+            spec["hist"] = spec["hist"] + [st[3]]
+            continue
+        fresh = H.build_rep(spec)                       # (G1) same query on a fresh object with the current generators
+        want, _ = _enum(fresh, aut_from_json(inp["aut"]), st)
+        got, raw = _enum(rep, aut, st)
+        if not _same(got, want):
+            return {"bad": tag, "what": "differs from a fresh representation with the same generators", "who": who}
+        if raw is not None:                             # (G2) the caller modifies what was returned, then asks again
+            for part in (raw if isinstance(raw, tuple) else (raw,)):
+                if isinstance(part, np.ndarray):
+                    if part.flags.writeable and part.size:
+                        part += 1
+                elif isinstance(part, list):
+                    part.append("zz")
+            again, _ = _enum(rep, aut, st)
+            if not _same(again, want):
+                return {"bad": tag, "what": "result changed after the caller modified an earlier result", "who": who}
+    return {"bad": None}
+
+
+def judge_rhist(inp, obs, lr):
+    if "exc" in obs:
+        return {"expected": "history evaluates", "observed": obs, "tags": {"exc": obs["exc"]}}
+    if obs["bad"] is not None:
+        i = int(obs["bad"].split(":")[0])
+        prior = sorted({st[0] for st in inp["steps"][:i]})
+        return {"expected": "every enumeration on an object with a history equals the enumeration on a fresh object; results are not "
+                            "affected by the caller modifying earlier results",
+                "observed": obs, "tags": {"step": obs["bad"].split(":")[1], "what": obs["what"], "after_assign": "assign" in prior}}
+    return None
+
+
 CLAUSES = [
     Clause("accepted_corr", "corr", gen_acc_t, run_acc, judge_acc, lean=lean_acc, site="Representation.automaton_accepted",
            budget={"quick": 200, "thorough": 9000},
@@ -656,6 +801,9 @@ CLAUSES = [
     Clause("free_oracle", "oracle", gen_free, run_freeo, judge_freeo, site="Representation.freely_reduced_elements",
            budget={"quick": 100, "thorough": 4500},
            what="freely_reduced_elements / free_words_of_length return each freely reduced word exactly once, with its image"),
+    Clause("history_oracle", "oracle", gen_rhist, run_rhist, judge_rhist, site="Representation (enumerations on an object with a history)",
+           budget={"quick": 150, "thorough": 5000},
+           what="two unrelated representations with the same generator names; interleaved freely_reduced_elements / automaton_accepted (start and end state) / elements calls and generator additions / re-assignments on the same objects; every enumeration is compared with a fresh object, every returned array / list is modified in place and the call repeated"),
     Clause("memo_oracle", "oracle", gen_memo, run_memo, judge_memo, site="Representation.automaton_accepted(precomputed=...)",
            budget={"quick": 200, "thorough": 9000},
            what="a caller-supplied precomputed dict reused across calls (different lengths/states; same and different options) gives the results of fresh calls"),
